@@ -20,6 +20,7 @@ type Clause struct {
 	Kind string // requires ensures modifies invariant assert assume
 	Slow  bool   // discharged in the thorough tier only (tag slow)
 	Label string // optional stable name (tag id=...)
+	By    []string // proof hint (tag by=<id>): the asserted facts to try first as the only quantified assumptions
 	Reveal []string // recursive spec functions unfolded for this clause only (tag reveal=f)
 	Tags []string
 	Text string
@@ -79,6 +80,7 @@ type SpecFunc struct {
 	Res    string
 	Body   *Clause // nil for uninterpreted
 	Rec    bool
+	Opaque bool // not recursive, but defined only where the contract reveals it
 }
 
 type Lemma struct {
@@ -176,7 +178,7 @@ func (S *Specs) LoadFile(path string, goFile bool) error {
 		}
 		label := ""
 		slow := false
-		var clauseReveal []string
+		var clauseReveal, clauseBy []string
 		{
 			var keep []string
 			for _, t := range tags {
@@ -186,6 +188,8 @@ func (S *Specs) LoadFile(path string, goFile bool) error {
 					slow = true
 				} else if strings.HasPrefix(t, "reveal=") {
 					clauseReveal = append(clauseReveal, t[7:])
+				} else if strings.HasPrefix(t, "by=") {
+					clauseBy = append(clauseBy, t[3:])
 				} else {
 					keep = append(keep, t)
 				}
@@ -193,7 +197,7 @@ func (S *Specs) LoadFile(path string, goFile bool) error {
 			tags = keep
 		}
 		mkClause := func(kind, text string) *Clause {
-			c := &Clause{Kind: kind, Tags: tags, Text: text, Src: src, Label: label, Reveal: clauseReveal, Slow: slow}
+			c := &Clause{Kind: kind, Tags: tags, Text: text, Src: src, Label: label, Reveal: clauseReveal, Slow: slow, By: clauseBy}
 			last = c
 			return c
 		}
@@ -383,10 +387,19 @@ func (S *Specs) LoadFile(path string, goFile bool) error {
 				rest = strings.TrimSpace(rest[4:])
 			}
 			r := regexp.MustCompile(`^(\w+)\(([^)]*)\)\s*(\w+)\s*(?:=\s*(.*))?$`).FindStringSubmatch(rest)
-			if r == nil {
+			if r == nil && !strings.HasPrefix(rest, "opaque ") {
 				return fmt.Errorf("%s: cannot parse spec func", src)
 			}
-			sf := &SpecFunc{Name: r[1], Res: r[3], Rec: rec}
+			opaque := false
+			if !rec && strings.HasPrefix(rest, "opaque ") {
+				opaque = true
+				rest = strings.TrimSpace(rest[7:])
+				r = regexp.MustCompile(`^(\w+)\(([^)]*)\)\s*(\w+)\s*(?:=\s*(.*))?$`).FindStringSubmatch(rest)
+				if r == nil {
+					return fmt.Errorf("%s: cannot parse spec func", src)
+				}
+			}
+			sf := &SpecFunc{Name: r[1], Res: r[3], Rec: rec, Opaque: opaque}
 			for _, p := range strings.Split(r[2], ",") {
 				f := strings.Fields(p)
 				if len(f) == 0 {
